@@ -14,9 +14,9 @@
       rowid order, the extent recorded in gpkg_contents, and the rtree entries;
     - [db_txs] counts the transactions begun and committed by [writeFeatures] (one per page, the
       final one possibly EMPTY: no row, no extent update);
-    - [db_writes] counts the transactions that modify the file (what the SQLite file change counter
-      shows): the INSERT transaction of a non-empty page, the UPDATE of gpkg_contents when the page
-      has an extent.
+    - [db_writes] counts the transactions that change the file (what the SQLite file change counter
+      shows): the INSERT transaction of a non-empty page, and the UPDATE of gpkg_contents when the page
+      has an extent that changes the recorded one (SQLite does not rewrite an identical record).
 
     Source lines refer to processing/gpkg/gpkg.go at the pinned tree + fix commits c3f647a, 16e3a13
     (empty geometries are skipped when the page extent is accumulated; the geometry is appended to a
@@ -119,6 +119,17 @@ Definition merge_extent (old : option ext) (page : option ext) : option ext :=
   | Some e => match old with None => Some e | Some o => Some (ext_union o e) end
   end.
 
+(** equality tests on extents (also used by the correspondence check) *)
+Definition ext_eqb (a b : ext) : bool :=
+  Z.eqb (xmin a) (xmin b) && Z.eqb (ymin a) (ymin b) && Z.eqb (xmax a) (xmax b) && Z.eqb (ymax a) (ymax b).
+
+Definition option_eqb {A} (eqb : A -> A -> bool) (a b : option A) : bool :=
+  match a, b with
+  | None, None => true
+  | Some x, Some y => eqb x y
+  | _, _ => false
+  end.
+
 (** ** Tables *)
 
 (** PRAGMA table_info: name, type, notnull, pk (cid and dflt_value are read but not used) *)
@@ -153,8 +164,8 @@ Record db := MkDb { db_srs : list srs; db_tabs : list tabstate; db_txs : N; db_w
     The digests of the two definition texts are FNV-1a/32 of the library's strings; the harness
     computes the same digest on what it reads back, so a change of the library shows up. *)
 Definition def_digest_empty : N := 2166136261.
-Definition def_digest_4326 : N := 2914587291.
-Definition def_digest_3857 : N := 2496814436.
+Definition def_digest_4326 : N := 761772808.
+Definition def_digest_3857 : N := 1088850955.
 
 Definition known_srs : list srs := [
   MkSrs "any" (-1) "none" (-1) def_digest_empty "any";
@@ -254,7 +265,10 @@ Definition flush (t : table) (d : db) (fs : list feature) : res db :=
       let pe := page_extent fs in
       let ts2 := MkTab (ts_desc ts1) (ts_rows ts1) (merge_extent (ts_extent ts1) pe) (ts_rtree ts1) in
       let w1 := match fs with [] => 0%N | _ => 1%N end in
-      let w2 := match pe with None => 0%N | Some _ => 1%N end in
+      let w2 := match pe with
+                | None => 0%N
+                | Some _ => if option_eqb ext_eqb (merge_extent (ts_extent ts1) pe) (ts_extent ts1) then 0%N else 1%N
+                end in
       Ok (MkDb (db_srs d) (replace_tab (t_name t) ts2 (db_tabs d)) (N.succ (db_txs d)) (db_writes d + w1 + w2))
   end.
 
@@ -327,16 +341,6 @@ Fixpoint list_eqb {A} (eqb : A -> A -> bool) (a b : list A) : bool :=
   match a, b with
   | [], [] => true
   | x :: a', y :: b' => eqb x y && list_eqb eqb a' b'
-  | _, _ => false
-  end.
-
-Definition ext_eqb (a b : ext) : bool :=
-  Z.eqb (xmin a) (xmin b) && Z.eqb (ymin a) (ymin b) && Z.eqb (xmax a) (xmax b) && Z.eqb (ymax a) (ymax b).
-
-Definition option_eqb {A} (eqb : A -> A -> bool) (a b : option A) : bool :=
-  match a, b with
-  | None, None => true
-  | Some x, Some y => eqb x y
   | _, _ => false
   end.
 
